@@ -29,6 +29,7 @@ structure PGraph where
   nodes : Array PNode := #[]            -- sorted by handle
   groups : Array (List Nat) := #[]
   clocks : Array (List NodePort) := #[]
+  caches : Array (List NodePort) := #[]   -- Clock::m_clockedNodesCache, in order
   calive : Array Bool := #[]              -- clock object still exists
   cdrv : Array (Option Nat) := #[]        -- Clock::m_clockDriver
   rdrv : Array (Option Nat) := #[]        -- Clock::m_resetDriver
@@ -55,6 +56,7 @@ def PGraph.toState (g : PGraph) : State :=
     gnodes := fun x => g.groups.getD x []
     nclocks := g.clocks.size
     clocked := fun x => g.clocks.getD x []
+    cache := fun x => g.caches.getD x []
     calive := fun x => g.calive.getD x false
     dk := fun h => match nd h with | some n => n.dk | none => 0
     drv := fun k c => if k = 1 then g.cdrv.getD c none else if k = 2 then g.rdrv.getD c none else none
@@ -73,6 +75,7 @@ def tabulate (s : State) : PGraph :=
       else a) #[]
     groups := ((List.range s.ngroups).map s.gnodes).toArray
     clocks := ((List.range s.nclocks).map s.clocked).toArray
+    caches := ((List.range s.nclocks).map s.cache).toArray
     calive := ((List.range s.nclocks).map s.calive).toArray
     cdrv := ((List.range s.nclocks).map (s.drv 1)).toArray
     rdrv := ((List.range s.nclocks).map (s.drv 2)).toArray
